@@ -205,6 +205,175 @@ func c14cPattern(r *Rng) string {
 	return Pick(r, []string{n + "/" + m, n + "/" + m, n + "/" + m + "/" + k, "*/" + m, "**/" + m, n + "/*", n, "!" + n + "/" + m, n + "/**", "?/" + m + "/*"})
 }
 
+// the "relink" flavour (see c14GenCopy): returns the source argument, the destination argument and
+// CopyDirContents.  Sources are the top-level directories T of /src (wildcard matches come in
+// lexical order); with the argument "*/X" every T/X is merged into one destination directory.
+func c14cRelink(r *Rng, add func(Sx)) (srcArg, dstArg string, dirContents bool) {
+	made := map[string]bool{"/src": true, "/o": true, "/o/d": true}
+	mkdirP := func(p string) {
+		parts := strings.Split(strings.TrimPrefix(p, "/"), "/")
+		cur := ""
+		for _, c := range parts {
+			cur += "/" + c
+			if !made[cur] {
+				made[cur] = true
+				add(L(N(5), S(cur), N(0755)))
+			}
+		}
+	}
+	dirOf := func(p string) string { return p[:strings.LastIndex(p, "/")] }
+	rel := func(n int) string {
+		var cs []string
+		for k := 0; k < n; k++ {
+			cs = append(cs, Pick(r, []string{"a", "b", "c", "d", "f", "l", "sub", "deep"}))
+		}
+		return strings.Join(cs, "/")
+	}
+	// the sources, in the order in which they are copied
+	tops := []string{"a", "b", "c", "d", "f", "l"}[:3+r.Intn(3)]
+	var base []string
+	if r.Chance(65) {
+		x := Pick(r, []string{"x", "a", "d"})
+		for _, t := range tops {
+			base = append(base, "/src/"+t+"/"+x)
+		}
+		srcArg, dirContents = Pick(r, []string{"*/", "?/", "[a-z]/"})+x, r.Chance(40)
+	} else {
+		for _, t := range tops {
+			base = append(base, "/src/"+t)
+		}
+		srcArg, dirContents = Pick(r, []string{"*", "?"}), true
+	}
+	for _, b := range base {
+		mkdirP(b)
+	}
+	dstArg = Pick(r, []string{"/", "/", ".", "new", "a"})
+	// the recorded path Q/rest and the position that is replaced: Q itself, or a prefix of Q, or Q/rest
+	q, rest := rel(1+r.Intn(2)), rel(1+r.Intn(3))
+	p1 := q + "/" + rest
+	i := r.Intn(len(base) - 1)
+	m := i + 1 + r.Intn(len(base)-1-i)
+	if r.Chance(10) {
+		m = r.Intn(len(base))
+	}
+	first := base[i] + "/" + p1
+	mkdirP(dirOf(first))
+	add(L(N(9), S(first), Bool(true), N(uint64(Pick(r, []int{0644, 0600, 0755}))), N(0), S("S:grp:"+p1)))
+	if r.Chance(30) {
+		add(L(N(15), S(first), N(1000), N(1000)))
+	}
+	// the outside directory with the same relative name below it
+	out := Pick(r, []string{"/o/r", "/o/r", "/o/d", "/o"})
+	pos, below := q, rest
+	switch x := r.Intn(10); {
+	case x < 6:
+	case x < 8 && strings.Contains(q, "/"):
+		pos, below = dirOf(q), q[strings.LastIndex(q, "/")+1:]+"/"+rest
+	case x < 9:
+		pos, below = p1, ""
+	}
+	if below != "" {
+		mkdirP(dirOf(out + "/" + below))
+		add(L(N(9), S(out+"/"+below), Bool(true), N(0600), N(0), S("O:relink")))
+		add(L(N(16), S(out+"/"+below), N(c14OldTime)))
+	} else {
+		mkdirP(out)
+	}
+	add(L(N(16), S(out), N(c14OldTime)))
+	// what the later source has there
+	at := base[m] + "/" + pos
+	mkdirP(dirOf(at))
+	switch x := r.Intn(20); {
+	case x < 10:
+		add(L(N(7), S(out), S(at)))
+	case x < 15:
+		add(L(N(7), S(strings.Repeat("../", 4+strings.Count(pos, "/"))+strings.TrimPrefix(out, "/")), S(at)))
+	case x < 17:
+		add(L(N(9), S(at), Bool(true), N(0644), N(0), S("S:blocker")))
+	case x < 19:
+		mkdirP(at)
+	default:
+		add(L(N(7), S(Pick(r, c14cTargets)), S(at)))
+	}
+	// the other members of the group
+	for k := 0; k < 1+r.Intn(2); k++ {
+		j := m + r.Intn(len(base)-m)
+		if r.Chance(15) {
+			j = r.Intn(len(base))
+		}
+		other := base[j] + "/" + rel(1+r.Intn(2))
+		if r.Chance(25) {
+			other = base[j] + "/" + p1
+		}
+		mkdirP(dirOf(other))
+		add(L(N(8), S(first), S(other)))
+	}
+	return
+}
+
+// the "created chain" flavour: the destination argument n1/../nk names 2..5 levels that do not exist,
+// so that Copy creates the chain n1..n(k-1) for the first wildcard match and records it for the
+// deferred fixCreatedParentDirs.  The first match is a symlink made of j ".." which is planted at
+// nk: for the later matches the destination resolves to the directory j levels up the chain, and a
+// match named like the chain component just below it replaces THAT created directory — at the top,
+// in the middle or at the end of the chain — by a symlink to an outside directory that holds the
+// rest of the chain (absolute or ".."-laden), by a file, or merges a directory into it.
+func c14cChain(r *Rng, add func(Sx)) (srcArg, dstArg string) {
+	pool := []string{"t", "s", "u", "v", "w", "a", "b", "c"}
+	for i := len(pool) - 1; i > 0; i-- {
+		j := r.Intn(i + 1)
+		pool[i], pool[j] = pool[j], pool[i]
+	}
+	k := 3 + r.Intn(4) // names in the argument; k-1 created directories
+	if r.Chance(15) {
+		k = 2
+	}
+	ns := pool[:k]
+	// the link is planted in the directory at depth k-1: with j ".." the destination of the later
+	// matches is the directory at depth k-1-j (the root when j >= k-1)
+	j := 1 + r.Intn(k)
+	pos := k - j // 1-based position in the chain of the created directory just below it
+	if pos < 1 {
+		pos = 1
+	}
+	add(L(N(7), S(strings.TrimSuffix(strings.Repeat("../", j), "/")), S("/src/0")))
+	// the outside directory with the rest of the chain below it
+	out := "/o/r"
+	add(L(N(5), S(out), N(0755)))
+	cur := out
+	rest := ns[pos : k-1]
+	for _, n := range rest {
+		cur += "/" + n
+		add(L(N(5), S(cur), N(0755)))
+	}
+	for c := cur; c != "/o"; c = c[:strings.LastIndex(c, "/")] {
+		add(L(N(16), S(c), N(c14OldTime)))
+	}
+	add(L(N(16), S("/o"), N(c14OldTime)))
+	name := ns[pos-1]
+	if r.Chance(10) {
+		name = Pick(r, ns)
+	}
+	at := "/src/" + name
+	switch x := r.Intn(20); {
+	case x < 9:
+		add(L(N(7), S(out), S(at)))
+	case x < 14:
+		add(L(N(7), S(strings.Repeat("../", k+1)+"o/r"), S(at)))
+	case x < 17:
+		add(L(N(9), S(at), Bool(true), N(0644), N(0), S("S:blocker")))
+	case x < 19:
+		add(L(N(5), S(at), N(0750)))
+		add(L(N(9), S(at+"/z"), Bool(true), N(0644), N(0), S("S:z")))
+	default:
+		add(L(N(7), S(Pick(r, c14cTargets)), S(at)))
+	}
+	if r.Chance(30) {
+		add(L(N(9), S("/src/zz"), Bool(true), N(0644), N(0), S("S:zz")))
+	}
+	return Pick(r, []string{"*", "*", "?", "[0-9a-z]*"}), strings.Join(ns, "/") + Pick(r, []string{"", "", "", "/"})
+}
+
 func c14GenCopy(g *Gen) {
 	n := g.Vol(1200, 25000)
 	srcArgs := []string{"/", ".", "a", "b", "d", "l", "f", "a/b", "a/..", "../o", "/../o/f", "l/f", "d/f", "*", "?/*", "a/", "../../o/d", "a/*", "[ab]"}
@@ -226,9 +395,15 @@ func c14GenCopy(g *Gen) {
 			add(L(N(14), S("/dst"), N(02775)))
 			add(L(N(15), S("/dst"), N(0), N(34)))
 		}
-		_, l1 := c14cPopulate(r, &ops, "/src", "S", 3+r.Intn(9))
+		// flavour "created chain" (see c14cChain): decided first, the random trees stay small
+		chain := r.Chance(9)
+		nsrc := 3 + r.Intn(9)
+		if chain {
+			nsrc = r.Intn(3)
+		}
+		_, l1 := c14cPopulate(r, &ops, "/src", "S", nsrc)
 		dfiles, l2 := []string(nil), 0
-		if !r.Chance(20) {
+		if !chain && !r.Chance(20) {
 			dfiles, l2 = c14cPopulate(r, &ops, "/dst", "D", r.Intn(9))
 		}
 		if r.Chance(30) {
@@ -276,6 +451,23 @@ func c14GenCopy(g *Gen) {
 			}
 			srcArg, dstArg = Pick(r, []string{"/", ".", "/"}), Pick(r, []string{"/", ".", ""})
 		}
+		// flavour "relink": several wildcard sources merged into one destination directory; a
+		// hard-link group whose first member is copied to Q/rest (rest = 1..3 names), a later
+		// source that has something else at Q or at an ancestor-or-descendant position of the
+		// recorded path (a symlink to an outside directory in which the same relative name
+		// exists, a symlink to it written with "..", a file, a real directory), and further
+		// members of the group in later (or the same, or earlier) sources
+		if chain {
+			deferred = false
+		}
+		relink := !deferred && !chain && r.Chance(12)
+		relinkDC := false
+		if relink {
+			srcArg, dstArg, relinkDC = c14cRelink(r, add)
+		}
+		if chain {
+			srcArg, dstArg = c14cChain(r, add)
+		}
 		wild := strings.ContainsAny(srcArg, "*?[") || r.Chance(10)
 		opt := func(p int, x Sx) Sx {
 			if r.Chance(p) {
@@ -305,9 +497,17 @@ func c14GenCopy(g *Gen) {
 			}
 			always = r.Chance(85)
 		}
-		o := L(Bool(r.Chance(50)), Bool(wild), Bool(always), Bool(r.Chance(30)),
+		dirContents := r.Chance(30)
+		if relink {
+			always = r.Chance(85)
+			dirContents = relinkDC
+		}
+		if chain {
+			always = r.Chance(85)
+		}
+		o := L(Bool(r.Chance(50)), Bool(wild), Bool(always), Bool(dirContents),
 			opt(25, L(N(uint64(Pick(r, []int{0, 1000, 7}))), N(uint64(Pick(r, []int{0, 1000, 9}))))),
-			opt(25, L(N(c14OldTime+5000000000))),
+			opt(map[bool]int{false: 25, true: 90}[chain], L(N(c14OldTime+5000000000))),
 			opt(20, L(N(uint64(Pick(r, []int{0700, 0751, 0644, 02750}))))),
 			L(inc...), L(exc...))
 		in := L(L(ops...), S("/src"), S(srcArg), S("/dst"), S(dstArg), o)
@@ -317,6 +517,12 @@ func c14GenCopy(g *Gen) {
 		}
 		if deferred {
 			g.classes["copyfs-deferred-parent"]++
+		}
+		if relink {
+			g.classes["copyfs-relink"]++
+		}
+		if chain {
+			g.classes["copyfs-created-chain"]++
 		}
 		if len(out.L) == 7 && out.L[3].Kind == 'n' {
 			switch out.L[3].Int() {
